@@ -30,24 +30,67 @@ class _RecFs(object):
         return self.realpath(posixpath.dirname(path))
 
 
-def k_location(path: str) -> str:
+class _RecPath(object):
+    """posixpath with normpath cut out: it records its argument and answers with a free symbolic string"""
+    sep = '/'
+
+    def __init__(self, norm):
+        self.norm, self.calls = norm, []
+
+    def normpath(self, p):
+        self.calls.append(p)
+        return self.norm
+
+    @staticmethod
+    def basename(p):
+        import posixpath
+        return posixpath.basename(p)
+
+    @staticmethod
+    def dirname(p):
+        import posixpath
+        return posixpath.dirname(p)
+
+    @staticmethod
+    def join(a, *rest):
+        import posixpath
+        return posixpath.join(a, *rest)
+
+
+class _RecOs(object):
+    sep = '/'
+
+    def __init__(self, norm):
+        self.path = _RecPath(norm)
+
+
+def k_location(path: str, norm: str) -> str:
     """
-    pre: 1 <= len(path) <= (PARTITION or 6)
-    pre: chr(0) not in path
+    pre: 1 <= len(path) <= 3 and 1 <= len(norm) <= (PARTITION or 6)
+    pre: chr(0) not in path and chr(0) not in norm
     post: _ == ''
     """
     rt.begin()
     import posixpath
-    from trashcli.put.original_location import OriginalLocation
+    import trashcli.put.original_location as ol
     from trashcli.put.core.path_maker_type import PathMakerType
     fs = _RecFs()
-    got = OriginalLocation(fs).for_file(path, PathMakerType.AbsolutePaths, '/')
-    norm = posixpath.normpath(path)
+    saved = ol.os
+    fake = _RecOs(norm)
+    ol.os = fake
+    try:
+        got = ol.OriginalLocation(fs).for_file(path, PathMakerType.AbsolutePaths, '/')
+    finally:
+        ol.os = saved
+    if len(fake.path.calls) != 1 or not (path == fake.path.calls[0]):
+        return rt.fail('C18:argument-not-normalised-once', 'for_file(%r): normpath called with %r' % (path, fake.path.calls))
+    # norm stands for normpath(path): an arbitrary string here, so the claim covers every normal form
     parent, base = posixpath.dirname(norm), posixpath.basename(norm)
-    if fs.calls != [parent]:
-        return rt.fail('C18:realpath-of-wrong-thing', 'for_file(%r) resolved %r, only the parent %r may be resolved' % (path, fs.calls, parent))
-    if got != posixpath.join('/R' + ('' if parent.startswith('/') else '/') + parent, base):
-        return rt.fail('C18:location-not-parent-plus-name', 'for_file(%r) = %r' % (path, got))
+    if len(fs.calls) != 1 or not (parent == fs.calls[0]):
+        return rt.fail('C18:realpath-of-wrong-thing', 'for_file(%r) [normal form %r] resolved %r, only the parent %r may be resolved' % (path, norm, fs.calls, parent))
+    want = posixpath.join('/R' + ('' if parent.startswith('/') else '/') + parent, base)
+    if not (want == got):
+        return rt.fail('C18:location-not-parent-plus-name', 'for_file(%r) [normal form %r] = %r' % (path, norm, got))
     return rt.ok()
 
 
@@ -56,11 +99,12 @@ LINKS = ['to-file-abs', 'to-file-rel', 'to-dir-abs', 'to-dir-rel', 'dangling', '
 SLASHES = ['', '/', '//', '///']
 VIA = ['direct', 'through-linked-parent', 'absolute', 'dot-prefix']
 LAYOUT = ['alt', 'top', 'home', 'fallback-cross-volume']
+OPTS = [[], ['-f'], ['-v'], ['-i'], ['-rf']]  # -i is answered with y
 
 
-def _case(lk, sl, via, layout):
+def _case(lk, sl, via, layout, opt=0):
     with rt.untraced():
-        rt.begin((LINKS[lk], SLASHES[sl], VIA[via], LAYOUT[layout]))
+        rt.begin((LINKS[lk], SLASHES[sl], VIA[via], LAYOUT[layout], OPTS[opt]))
         lay = LAYOUT[layout]
         xdev = lay == 'fallback-cross-volume'
         base = '/h/w' if lay == 'home' else '/v/w'
@@ -84,10 +128,10 @@ def _case(lk, sl, via, layout):
         v = VIA[via]
         arg = {'direct': 'lnk', 'through-linked-parent': '../lp/lnk', 'absolute': d + '/lnk', 'dot-prefix': './lnk'}[v] + SLASHES[sl]
         e = scen.env({'TRASH_ENABLE_HOME_FALLBACK': '1'} if xdev else None)
-        label = '%s:slashes=%d:%s' % (k, sl, v)
+        label = '%s:slashes=%d:%s' % (k, sl, v) + (':opt=' + OPTS[opt][0] if opt else '')
         m = W.build_model(world)
         before = m.snap('/')
-        _, r = scen.run_model(None, [C('put', (['--home-fallback'] if xdev else []) + ['--', arg], e, cwd=d)], model=m)
+        _, r = scen.run_model(None, [C('put', OPTS[opt] + (['--home-fallback'] if xdev else []) + ['--', arg], e, cwd=d, stdin=['y'])], model=m)
         r = r[0]
         after = m.snap('/')
         points_to_dir = k in ('to-dir-abs', 'to-dir-rel', 'to-link', 'to-other-volume-dir', 'to-self-parent', 'to-trash-dir')
@@ -103,6 +147,8 @@ def _case(lk, sl, via, layout):
         link_snap = scen.sub(before, d + '/lnk')
         # targets untouched: everything that existed before and is not the link itself is unchanged
         removed, added, changed = scen.delta(before, after)
+        if scen.sub(after, d + '/lnk') is not None:
+            return rt.fail('C18:exit-0-but-link-not-trashed:' + label, 'the link is still at %s; stderr %r' % (d + '/lnk', r['err'][-200:]))
         if changed or sorted(removed) != [d + '/lnk']:
             return rt.fail('C18:target-or-other-touched:' + label, 'removed=%r changed=%r' % (sorted(removed)[:5], sorted(changed)[:5]))
         pays = [p for p, s in added.items() if '/files/' in p and s[0] == 'l']
@@ -132,18 +178,20 @@ def _case(lk, sl, via, layout):
         return rt.ok()
 
 
-def w_main(lk: int, sl: int, via: int, layout: int) -> str:
+def w_main(lk: int, sl: int, via: int, layout: int, opt: int) -> str:
     """
-    pre: 0 <= lk < 10 and 0 <= sl < 4 and 0 <= via < 4 and 0 <= layout < 4
+    pre: PARTITION is None or layout == PARTITION
+    pre: 0 <= lk < 10 and 0 <= sl < 4 and 0 <= via < 4 and 0 <= layout < 4 and 0 <= opt < 5
     post: _ == ''
     """
-    return _case(rt.sel(lk, 10), rt.sel(sl, 4), rt.sel(via, 4), rt.sel(layout, 4))
+    return _case(rt.sel(lk, 10), rt.sel(sl, 4), rt.sel(via, 4), rt.sel(layout, 4), rt.sel(opt, 5))
 
 
 def obligations(tier):
     return [
-        CH('K_location_only_parent_resolved', MOD, 'k_location', timeout=240 if tier == 'quick' else 1800, partitions=[6 if tier == 'quick' else 8], engine='K', regime='traced',
-           encodes=['OriginalLocation.for_file', 'Fs.parent_realpath2'], stubs=['realpath -> recorder'], bounds='path: any str 1<=len<=%d' % (6 if tier == 'quick' else 8)),
-        CH('W_link_x_slashes_x_via_x_layout', MOD, 'w_main', timeout=900, engine='W', regime='selector',
-           encodes=K.PUT_FUNCS + K.RESTORE_FUNCS, stubs=K.STUBS, bounds='10 link kinds x 0-3 trailing slashes x 4 spellings x 4 layouts (incl. cross-volume via the home fallback)'),
+        CH('K_location_only_parent_resolved', MOD, 'k_location', timeout=400 if tier == 'quick' else 1800, partitions=[5 if tier == 'quick' else 8], engine='K', regime='traced',
+           encodes=['OriginalLocation.for_file', 'Fs.parent_realpath2'], stubs=['realpath -> recorder', 'posixpath.normpath -> recorder answering with a free symbolic string'],
+           bounds='argument: any str 1<=len<=3; its normal form: ANY str 1<=len<=%d' % (5 if tier == 'quick' else 8)),
+        CH('W_link_x_slashes_x_via_x_layout', MOD, 'w_main', timeout=900, partitions=list(range(4)), engine='W', regime='selector',
+           encodes=K.PUT_FUNCS + K.RESTORE_FUNCS, stubs=K.STUBS, bounds='10 link kinds x 0-3 trailing slashes x 4 spellings x 4 layouts (incl. cross-volume via the home fallback) x 5 option sets (none, -f, -v, -i answered y, -rf)'),
     ]
